@@ -216,6 +216,9 @@ func genCache(g GenCtx) interface{} {
 			}
 		}
 	}
+	if rng.Intn(25) == 0 {
+		sc.Filter = world.FilterSpec{Op: "flaky", V: pick(rng, "2", "3", "5")}
+	}
 	sc.Readers = rng.Intn(3)
 	sc.Sim = SimCfg{Strategy: randStrategy(rng, []string{"newCache>c.run", "reader"}), PermuteMaps: true, MaxSteps: 100000}
 	sc.Sim.Strategy.StallPermille = 0
@@ -312,8 +315,76 @@ func refSigs(evs []world.RefEvent) []string {
 	return out
 }
 
+// runCacheFlaky: the structural half of C02 under a filter whose answers are
+// not a function of the object.  Nothing can be said about WHICH objects are
+// cached; but the events of every operation, replayed strictly over the
+// content before it (Create only if absent, Update only if present and
+// strictly newer, Delete only if present), must give the content after it,
+// and Get must agree with List.
+func runCacheFlaky(sc *CacheScen) {
+	ctx, cancel := context.WithCancel(context.Background())
+	defer cancel()
+	c := kcache.VerifNewCache(ctx, world.NewLog(false), make(chan struct{}), sc.Filter.Build())
+	var prev []world.Spec
+	for i, op := range sc.Ops {
+		var evs []kcache.Event
+		var err error
+		switch op.Op {
+		case "sync":
+			evs, err = c.Sync(objsOf(op.List))
+		case "refilter":
+			evs, err = c.Refilter(objsOf(op.List), sc.Filter.Build())
+		case "update":
+			et := kcache.EventTypeUpdate
+			switch op.Typ {
+			case "create":
+				et = kcache.EventTypeCreate
+			case "delete":
+				et = kcache.EventTypeDelete
+			}
+			evs, err = c.Update(kcache.NewEvent(et, world.BuildMeta("pod", op.Obj)))
+		default:
+			continue
+		}
+		if err != nil {
+			detsim.Fail("cache-op-error", "op %d %s on a running cache returned %v", i, op.Op, err)
+		}
+		m := world.NewMirror("replay", prev)
+		m.Strict = true
+		got := recOf(evs)
+		for _, e := range got {
+			if msg := m.Apply(e.Type, e.Obj); msg != "" {
+				detsim.Fail("malformed-event", "op %d %s (filter that answers differently from call to call): %s\n  content before: %v\n  events: %v", i, op.Op, msg, world.SpecIDs(prev), world.Sigs(got))
+			}
+		}
+		objs, lerr := c.List()
+		if lerr != nil {
+			detsim.Fail("cache-read-error", "List() on a running cache: %v", lerr)
+		}
+		after := specsOfObjs(objs)
+		world.Scribble(objs)
+		if a, b := world.SpecIDs(m.List()), world.SpecIDs(after); !world.SameIDs(a, b) {
+			detsim.Fail("events-not-a-delta", "op %d %s (filter that answers differently from call to call): replaying the returned events over the previous content does not give the new content\n  replay: %v\n  cache : %v\n  events: %v", i, op.Op, a, b, world.Sigs(got))
+		}
+		for k, o := range after {
+			if k >= 12 {
+				break // (bulk populations: a sample)
+			}
+			g, gerr := c.Get(o.NS, o.Name)
+			if gerr != nil || g == nil || world.IDOf(g) != o.ID() {
+				detsim.Fail("cache-content-wrong", "after op %d %s: List() shows %s but Get returned %v (%v)", i, op.Op, o.ID(), g, gerr)
+			}
+		}
+		prev = after
+	}
+}
+
 func runCache(sci interface{}) {
 	sc := sci.(*CacheScen)
+	if sc.Filter.Op == "flaky" {
+		runCacheFlaky(sc)
+		return
+	}
 	pendingReads = nil
 	ctx, cancel := context.WithCancel(context.Background())
 	defer cancel()
